@@ -47,6 +47,8 @@ def gen_probe_case(rng, seed, idx, *, max_epochs=6, max_dur=12, allow_thin=True,
         "mode": str(rng.choice(list(modes))), "via": v,
         "engine_seed": int(rng.integers(0, 2 ** 31 - 1)),
         "split": int(rng.integers(0, len(spec) + 1)),
+        # repeated epochs of the schedule are one and the same EpochConfig object
+        "share_configs": bool(rng.random() < 0.5),
     }
     if err:
         case["err"] = gen_err(rng, case)
@@ -205,6 +207,17 @@ def build_engine(case, epochs, *, states=None, kernels=None, position_keys=None,
         kernels = make_kernels(case)
     C = case["chains"]
     if case["via"] == "builder":
+        if case["idx"] % 2:
+            # another builder was configured earlier in the same process (its lists modified in place, its kernel list
+            # filled); nothing of it may show up in the builder configured below
+            decoy = gs.EngineBuilder(seed=1, num_chains=1)
+            decoy.positions_included.append("decoy_included")
+            decoy.positions_excluded.extend(all_keys(case)[:1])
+            try:
+                decoy.kernels.append(None)
+                decoy.quantity_generators.append(None)
+            except AttributeError:      # read-only views
+                pass
         b = gs.EngineBuilder(seed=case["engine_seed"], num_chains=C)
         b.show_progress = False
         b.store_kernel_states = store_kernel_states
@@ -221,8 +234,13 @@ def build_engine(case, epochs, *, states=None, kernels=None, position_keys=None,
             b.add_quantity_generator(q)
         b.set_epochs(epochs)
         if position_keys is not None:
-            b.positions_included = list(position_keys.get("included", []))
-            b.positions_excluded = list(position_keys.get("excluded", []))
+            if case["idx"] % 4 >= 2:
+                # in place, as in the documentation (`builder.positions_included.append(...)`)
+                b.positions_included.extend(position_keys.get("included", []))
+                b.positions_excluded += list(position_keys.get("excluded", []))
+            else:
+                b.positions_included = list(position_keys.get("included", []))
+                b.positions_excluded = list(position_keys.get("excluded", []))
         eng = b.build()
     else:
         for k in kernels:
@@ -244,7 +262,7 @@ def build_engine(case, epochs, *, states=None, kernels=None, position_keys=None,
 
 def drive(case, **kw):
     """Build and run according to case['mode']. Returns (engine, kernels, states)."""
-    eps = mk_epochs(case["spec"])
+    eps = mk_epochs(case["spec"], share=bool(case.get("share_configs")))
     mode = case["mode"]
     if case["via"] == "builder" and mode != "all":
         # builder computes the chunk from the epochs it is given: hand it all epochs, but
